@@ -371,6 +371,23 @@ func genC13(tier string, r *Rng, emit func(Case)) {
 		emitRoot(emit, r, fam, num, den, 70, thorough)
 	}
 	genC13Lists(tier, r, emit)
+	// the Number keeps the expansion of the value it was given, whatever the caller does with its big.Rat afterwards
+	na := 40
+	if thorough {
+		na = 600
+	}
+	for i := 0; i < na; i++ {
+		num := big.NewInt(int64(r.Range(1, 5000)))
+		den := big.NewInt(int64(r.Pick([]int{1, 3, 7, 8, 9, 12, 70000, 120, 1000, 13})))
+		if r.Bool() {
+			den = big.NewInt(int64(r.Range(5001, 90000)))
+		}
+		num2 := []string{"0", "1", "7", "123456789"}[r.Intn(4)]
+		den2 := []string{"1", "7", "3", "8"}[r.Intn(4)]
+		for _, v := range allVers {
+			emit(Case{Ver: v, Op: "AliasCtor", Args: toks{"FromBigRat", num.String(), den.String(), itoa(r.Intn(4)), num2, den2, itoa(r.Pick([]int{20, 160}))}})
+		}
+	}
 }
 
 // NewNumberForTesting / NewFiniteNumber argument checks and NewNumber(g) over misbehaving generators.
@@ -471,5 +488,5 @@ func init() {
 	register("C01", genRoots(sqrtCtors, 2), ops)
 	register("C02", genRoots(cubeCtors, 3), ops)
 	register("C03", genC03, ops)
-	register("C13", genC13, map[string]runner{"FromBigRat": runRoot, "Hist": runHist})
+	register("C13", genC13, map[string]runner{"FromBigRat": runRoot, "Hist": runHist, "AliasCtor": runAliasCtor})
 }
